@@ -313,10 +313,12 @@ Fixpoint decode_rounds (l : list Z) : option (list (acq * rel)) :=
   | _ => None
   end.
 
+(* kind 2 = a plain thread that requests through the callback overload await_suspend(resume_fn, ctx) with a callback that
+   sets a flag (awaiter.h:191-194): the same sequence of atomic operations and the same blocking as lock().wait() *)
 Definition decode_task (l : list Z) : list task :=
   match l with
   | 1 :: k :: r =>
-      match (if Z.eqb k 0 then Some KCoro else if Z.eqb k 1 then Some KPlain else None), decode_rounds r with
+      match (if Z.eqb k 0 then Some KCoro else if Z.eqb k 1 then Some KPlain else if Z.eqb k 2 then Some KPlain else None), decode_rounds r with
       | Some k', Some p => [mkT k' PStep p ALock RDrop false false 0 0 0]
       | _, _ => []
       end
